@@ -72,7 +72,7 @@ def model_runs(chk, tier):
     chk.extra_cov["noguard_counterexample"] = r.violated
     # random deep sets
     # (TLC's simulator computes every successor of every state it passes: ~0.3 s per behaviour with these pools)
-    nsim = 100 if tier == "quick" else 3000
+    nsim = 100 if tier == "quick" else 2000
     r = chk.tlc("ProtoShapesMC.tla", "ProtoShapes_sim.cfg", "sim", workers=W, simulate=nsim // W, depth=80, seed=chk.seed, timeout=3000)
     take(r, "sim")
     return cases
